@@ -192,6 +192,14 @@ func steps(ds ...int64) []NStep {
 	return s
 }
 
+func wakes(n int) []NStep {
+	s := make([]NStep, n)
+	for i := range s {
+		s[i] = NStep{W: true}
+	}
+	return s
+}
+
 func fixedRenew() []NScenario {
 	year := 365 * day
 	return []NScenario{
@@ -214,6 +222,10 @@ func fixedRenew() []NScenario {
 		// trust anchors fail during a renewal: nothing published, SVID kept
 		{Dir: true, Script: []Item{okItem(0, hr), {Kind: kAnchorErr, A: 0, B: hr}, okItem(0, hr)}, Steps: []NStep{{D: 30 * mnt}, {Anch: 2}, {D: 10 * sec}}},
 		{Dir: false, Script: []Item{okItem(0, hr), {Kind: kAnchorErr, A: 0, B: hr}, okItem(0, hr)}, Steps: steps(30*mnt, 10*sec, 30*mnt)},
+		// the clock advanced exactly to every armed deadline (δ = 0): renewal stamped exactly at half-life
+		{Script: []Item{okItem(0, 100*sec), okItem(0, 10*mnt), okItem(0, 10*mnt)}, Steps: wakes(9)},
+		{Dir: true, Script: []Item{okItem(-mnt, 5*mnt), {Kind: kFail}, {Kind: kFail}, okItem(0, 3*mnt), okItem(hr, 2*hr)}, Steps: wakes(12)},
+		{Script: []Item{okItem(0, 2*hr), okItem(0, hr)}, Steps: wakes(64)},
 		// sub-second clock steps
 		{Script: []Item{okItem(0, 3*sec), okItem(0, 3*sec)}, Steps: steps(700*int64(time.Millisecond), 700*int64(time.Millisecond), 700*int64(time.Millisecond), 700*int64(time.Millisecond))},
 	}
@@ -250,6 +262,7 @@ func smallScopeRenew(depth int) []NScenario {
 		for _, d := range ds {
 			recD(append(cur, NStep{D: d}))
 		}
+		recD(append(cur, NStep{W: true}))
 	}
 	recD(nil)
 	var out []NScenario
@@ -300,6 +313,10 @@ func randomRenew(r *lib.Rand) NScenario {
 			sc.Script = append(sc.Script, Item{Kind: kNoID, A: 0, B: hr})
 		}
 	}
+	if r.Intn(6) == 0 { // δ = 0: only exact wakes
+		sc.Steps = wakes(r.Range(5, 40))
+		return sc
+	}
 	m := r.Range(3, 14)
 	for i := 0; i < m; i++ {
 		switch k := r.Intn(12); {
@@ -314,6 +331,8 @@ func randomRenew(r *lib.Rand) NScenario {
 			sc.Steps = append(sc.Steps, NStep{D: d})
 		case k == 3:
 			sc.Steps = append(sc.Steps, NStep{D: lifetimes[r.Intn(len(lifetimes)-2)]})
+		case k == 4 || k == 5:
+			sc.Steps = append(sc.Steps, NStep{W: true})
 		default:
 			sc.Steps = append(sc.Steps, NStep{D: stepSizes[r.Intn(len(stepSizes))]})
 		}
